@@ -1076,6 +1076,10 @@ Eval vm_compute in let '(ops, obs, fin, objs, _) := c in let '(r, s) := run repa
     return i, ' '.join(rest[k + 1:].split())[:1500]
 
 
+def usable(o):
+    return not (o.get('crash') or o.get('budget') or o.get('skipped'))
+
+
 def classify(texts):
     for sig in (SIG_F14, SIG_F15, SIG_CUE, SIG_DICT):
         if any(s == sig for s, _ in texts):
@@ -1114,6 +1118,12 @@ def correspond(ctx):
     mres = ctx.impl('c17_hist', {'histories': merged, 'latencies': [[a.get('latency'), b.get('latency')] for a, b in pairs]}, timeout=900)['out']
     hs_m, outs_m = [], []
     for mg, o, pr in zip(merged, mres, pairs):
+        if o.get('skipped'):
+            continue
+        if o.get('budget'):
+            c.failures.append(Failure('correspondence', 'two-server run stopped on budget at this history: ' + o['budget'], found_input=True,
+                                      theorem='bind_is_one_bundle_in_issue_order', replay={'two_server_history': mg, 'budget': o['budget']}))
+            continue
         if o.get('crash'):
             c.failures.append(Failure('correspondence', 'two-server history crashed the runner: ' + o['crash'][:600], replay={'history': mg}))
             continue
@@ -1134,6 +1144,17 @@ def correspond(ctx):
             flat_of[i] = flat[k]; k += 1
     items, idx = [], []
     for i, (h, o) in enumerate(zip(hs, outs)):
+        if o.get('skipped'):
+            c.count('skipped-after-budget')
+            continue
+        if o.get('budget'):
+            # not a harness problem: the library produced far more than the history issues (state leaking between blocks /
+            # histories); the history that tripped the budget is the replay (run it after the preceding ones of the batch)
+            c.failures.append(Failure('correspondence', 'run stopped on budget at this history: %s; the model emits at most a few commands per op' % o['budget'],
+                                      found_input=True, theorem='bind_is_one_bundle_in_issue_order',
+                                      replay={'history': h['ops'], 'mode': h.get('mode', 'nrt'), 'latency': h.get('latency'), 'budget': o['budget'],
+                                              'preceding_histories_in_batch': [x['ops'] for x in hs[max(0, i - 3):i]]}))
+            continue
         if o.get('crash'):
             c.failures.append(Failure('correspondence', 'history runner crashed: ' + o['crash'][:800], replay={'history': h}))
             continue
@@ -1178,7 +1199,7 @@ def correspond(ctx):
         h, o = hs[i], outs[i]
         texts = []
         if h['cls'] == 'valid':
-            texts = monitors(h, o) + bind_metamorphic(h, o, flat_of[i])
+            texts = monitors(h, o) + (bind_metamorphic(h, o, flat_of[i]) if usable(flat_of[i]) else [])
         sig = classify(texts)
         if (sig or 'x', bool(texts)) in seen and len(c.failures) >= 6:
             continue
@@ -1210,7 +1231,7 @@ def correspond(ctx):
                                       replay={'history': h['ops'], 'mode': h.get('mode', 'nrt'), 'two_server_history': o.get('merged'), 'latency': h.get('latency'), 'observed': [[st['ev'], st['exc']] for st in o['steps']]}))
     # independent monitors on every valid history, even when the model agrees
     for i, (h, o) in enumerate(zip(hs, outs)):
-        if h['cls'] != 'valid' or o.get('crash') or i in [idx[b] for b in bad]:
+        if h['cls'] != 'valid' or not usable(o) or not usable(flat_of[i]) or i in [idx[b] for b in bad]:
             continue
         texts = monitors(h, o) + bind_metamorphic(h, o, flat_of[i])
         if texts:
@@ -1232,7 +1253,7 @@ def search(ctx, failures):
     flat = ctx.impl('c17_hist', {'histories': [strip_binds(h['ops']) for h in hs], 'latencies': lats}, timeout=900)['out']
     found, seen = [], set()
     for h, o, f in zip(hs, outs, flat):
-        if o.get('crash'):
+        if not usable(o) or not usable(f):
             continue
         texts = monitors(h, o) + bind_metamorphic(h, o, f)
         if not texts:
@@ -1244,7 +1265,7 @@ def search(ctx, failures):
 
         def still_bad(hh):
             oo = ctx.impl('c17_hist', {'histories': [hh['ops'], strip_binds(hh['ops'])], 'latencies': [hh.get('latency')] * 2}, timeout=120)['out']
-            if oo[0].get('crash') or oo[1].get('crash'):
+            if not usable(oo[0]) or not usable(oo[1]):
                 return False
             tt = monitors(hh, oo[0]) + bind_metamorphic(hh, oo[0], oo[1])
             return bool(tt) and (classify(tt) or tt[0][1].split(':')[1][:40]) == key
